@@ -19,7 +19,7 @@ LEVEL_TEXT = ('Exploration with an exhaustive slice: every string over a 17-symb
               'are resolved, constructed, loaded in plain/flow/mapping/quoted/block contexts by both back-ends and dumped '
               'again; every text is first resolved by resolvers with other rule sets (a shared memo must not colour the answer) and quoted '
               'renderings are also tried as mapping keys; an independent character-level evaluator of the YAML 1.1 type repository (ref.yaml11) is the oracle, '
-              'a brute-force scan over all implicit-resolver buckets checks the first-character index.')
+              'a brute-force scan over all implicit-resolver buckets checks the first-character index.' + ' Look-alikes of 100-590 characters (12 forms) are included: no length cut-off may exist anywhere in resolution.')
 LEVEL_NOTE = ('Trusted: ref.yaml11 as the statement of the documented dialect (it agreed with the code on 1.18 M texts before '
               'the check was written); strings outside the enumerated alphabets are sampled, not enumerated.')
 TECHNIQUE = 'runtime monitoring: reference-model oracle (independent YAML 1.1 evaluator) over enumerated + generated scalar texts'
